@@ -809,12 +809,15 @@ class Pcf:
         if isinstance(parts, dict):
             parts = list(parts.values())
         out = []
+        by_fold = {p.name.casefold(): p.name for p in parts}
         for p in parts:
             out.append({'name': p.name, 'options': sorted([k, self._d_attr(a)] for k, a in p.options.items()
                                                            if not (k == 'name' and a.type.name == 'STRING' and a.val_str == p.name)),
                         **{k: [self._d_op(o) for o in getattr(p, k)] for k in
                            ('renderers', 'operators', 'initializers', 'emitters', 'forces', 'constraints')},
-                        'children': [ch.particle for ch in p.children]})
+                        # a child is a REFERENCE to a particle system; names are case-insensitive identifiers
+                        # (Particle.parse / export key them by casefold): compare by target, not by spelling
+                        'children': [by_fold.get(ch.particle.casefold(), ch.particle) for ch in p.children]})
         return [enc, ver, out]
 
     def write(self, v):
